@@ -350,6 +350,17 @@ func ExchangeCases(tier string, seed uint64) []ExCase {
 	})
 
 	// upstream proxy rejects the transport's CONNECT for an https request (F14 shape)
+	// the CONNECT header for the upstream proxy cannot be built (command/run sets GetProxyConnectHeader for --proxy-header and
+	// Kerberos): the connection to the upstream proxy is already dialled and must be closed
+	add("connect-upstream-header-error", "connect-err", func(e *Env) {
+		up := e.Peer(e.WatchedUpstream(func(c net.Conn, n int) {}))
+		e.Start(func(op *Options) { op.Upstream = "http://" + up.Addr; op.ConnectHeaderErr = true })
+		c := e.Client()
+		ex := Ex{Val: Val{Connect: true, Cn: 1}, Method: "CONNECT", Feat: NoFeat()}
+		co := e.Do(c, connectReq("example.invalid:443"), false, &ex)
+		e.End(c, co)
+		e.O.Exs = []Ex{ex}
+	})
 	for _, r := range []struct {
 		n      string
 		status int
@@ -451,6 +462,26 @@ func ExchangeCases(tier string, seed uint64) []ExCase {
 			e.O.Exs = []Ex{ex}
 		})
 	}
+
+	// the client is gone when the 101 is written: the origin delays its answer, the client resets meanwhile
+	add("upgrade-client-gone-before-101", "upgrade-write-fail", func(e *Env) {
+		o := e.Peer(func(c net.Conn, n int) {
+			if _, err := ReadHead(c, 5*time.Second); err != nil {
+				c.Close()
+				return
+			}
+			time.Sleep(150 * time.Millisecond)
+			c.Write([]byte("HTTP/1.1 101 Switching Protocols\r\nConnection: Upgrade\r\nUpgrade: vfproto\r\n\r\n"))
+			Echo(c)
+		})
+		e.Start(nil)
+		c := e.Client()
+		c.Write([]byte(getReq("http://"+o.Addr+"/ws", "Connection: Upgrade", "Upgrade: vfproto")))
+		time.Sleep(30 * time.Millisecond)
+		Reset(c)
+		e.O.Exs = []Ex{{Val: Val{St: 1, Rwc: true, W: 9}, Method: "GET", UpStatus: 101}}
+		e.Rig.WaitEvents("wrote", 1, 3*time.Second)
+	})
 
 	// client aborts while downloading: origin sends a large body, client resets after the head
 	add("client-abort-download", "write-fail", func(e *Env) {
@@ -1001,6 +1032,26 @@ func ExchangeCases(tier string, seed uint64) []ExCase {
 		}
 	}
 	return cs
+}
+
+// HandlerVariants returns the cases that make sense for martian's http.Handler implementation (no MITM, no
+// shutdown-in-progress cases, no cases about reading the request: net/http's server reads it), to be run with
+// TestingHTTPHandler.  Whether the connection is closed afterwards is net/http's decision and is not compared.
+func HandlerVariants(cs []ExCase) []ExCase {
+	var out []ExCase
+	for _, c := range cs {
+		switch c.Leaf {
+		case "read-eof", "read-err", "mitm", "mitm-h2", "connect-during-shutdown":
+			continue
+		}
+		if strings.Contains(c.Name, "#") {
+			continue
+		}
+		c.Name += "@handler"
+		c.Opt.Handler = true
+		out = append(out, c)
+	}
+	return out
 }
 
 func stClass(st int) int {
